@@ -31,7 +31,18 @@ class _DuckFluid:
         import numpy as np
         self.m_i = float(model.get("m_i") or 1.0)
         a = uf_callable(model, "alpha", 1.0)
-        self.alpha = lambda m: np.vectorize(lambda q: max(float(a(q)), 1e-12))(m) if hasattr(m, "__len__") else max(float(a(m)), 1e-12)
+        ys = [model.get(f"alpha_y{k}") for k in range(3)]
+        if all(v is not None for v in ys):
+            # the code read the interpolator's nodes: hand it a real scipy interpolator through the model's node values
+            # (clipped outside, as FlowProperties builds it)
+            from scipy.interpolate import interp1d
+            ys = [max(float(v), 1e-300) for v in ys]
+            x0 = float(model.get("alpha_x0") or 0.0)
+            xs = [x0, x0 + max(float(model.get("alpha_dx1") or 1.0), 1e-9)]
+            xs.append(xs[1] + max(float(model.get("alpha_dx2") or 1.0), 1e-9))
+            self.alpha = interp1d(xs, ys, bounds_error=False, fill_value=(min(ys), max(ys)))
+        else:
+            self.alpha = lambda m: np.vectorize(lambda q: max(float(a(q)), 1e-12))(m) if hasattr(m, "__len__") else max(float(a(m)), 1e-12)
         mf = [model.get(f"mf[{k}]") for k in range(nt)]
         mf = [float(v) if v is not None else None for v in mf]
         last = next((v for v in mf if v is not None), 0.5 * self.m_i)
